@@ -420,6 +420,16 @@ def one_malformed(col: Collector, rng, index: int):
                 col.violation(f"well-formed-frames-rejected:{name}", "Listener._recv_one raised on a well-formed frame list", {"frames": name}, index)
             return
         if isinstance(expect, str):
+            if name in ("junk", "syn-junk"):
+                try:
+                    obj = pickle.loads(junk)
+                except Exception:  # noqa: BLE001
+                    obj = NotImplemented
+                if obj is not NotImplemented and not hasattr(obj, "__dataclass_fields__"):
+                    # a few random byte strings ARE pickles (b"]." is the empty list): the frame is then well formed at the byte level and
+                    # decodes to something that is no message at all -- the Listener hands that over unvalidated (observation, 6.5)
+                    col.observe("random_bytes_that_are_a_pickle_of_a_non_message_were_handed_over")
+                    return
             col.violation(f"malformed-frames-delivered:{name}", f"frame list {name} was accepted and returned {got!r:.120}", {"frames": name}, index)
         elif got != expect:
             col.violation(f"frames-delivered-as-different-message:{name}", f"{got!r:.100} != {expect!r:.100}", {"frames": name}, index)
